@@ -141,7 +141,10 @@ def r4(ctx):
         ctx.check("MaxDrawdownGenerator::update", tab == want, "the maximum is replaced exactly when |next| > |current| (or none is held)", got=tab, want=want, key="table")
     m = ctx.fbody(name="update", self_adt=MEANG, trait="")
     calls = m.real_calls()
-    inc = [(bi, si) for bi, si, path, value, s in m.stores() if render(path) == "self.count"]
+    inc = [(bi, si) for bi, si, path, value, s in m.stores() if render(path) == "self.count" and
+           render(value) == "AddWithOverflow(self.count, 1).0"]
+    allc = [render(value) for bi, si, path, value, s in m.stores() if render(path) == "self.count"]
+    ctx.check("MeanDrawdownGenerator::update", allc == ["AddWithOverflow(self.count, 1).0"], "the count grows by exactly one per drawdown", got=allc, key="count-plus-one")
     means = [(bi, t, tm) for bi, t, tm in calls if mir.short(tm[1]) == "welford_online::calculate_mean"]
     ok = len(inc) == 1 and len(means) == 2 and all(m.dominates(inc[0][0], x[0]) for x in means)
     ctx.check("MeanDrawdownGenerator::update", ok, "the count is incremented once, before both running means are updated", got=(inc, len(means)), key="count-first")
